@@ -146,4 +146,337 @@ theorem exec_just : ∀ (fuel : Nat) (v : Voter) (call : Call), JustC v call (ex
                   ((exec_just fuel _ (.mark h p)).just (by intro _ _ hc; cases hc)))
               | (simp only; exact hg1.append ((exec_just fuel _ (.vote .cert h p)).just (by intro _ _ hc; cases hc)))
               | (simp only; exact hg1.append (by intro c0 h0 p0 w0 hm; simp at hm))
+
+section
+variable (T Tc : Nat) (strict : Bool)
+
+/-- the threshold every vote of a kind reports when the environment is uniform -/
+def thr (vt : VT) : Nat := if vt = .cert then Tc else T
+
+structure Inv (v : Voter) : Prop where
+  sta : ∀ cw ∈ v.ws, ∀ ch vt, StaInv (cw.2.sta ch vt)
+  vrf : strict = true → ∀ cw ∈ v.ws, ∀ ch vt h e, e ∈ (cw.2.sta ch vt).info h → e.vrf = true
+  th : strict = true → ∀ h vt, v.over h true vt = true → v.overT h vt = thr T Tc vt
+  env : strict = true → ∀ vt sv, v.env.sel vt = some sv → sv.T = thr T Tc vt
+
+def CoreEq (v v' : Voter) : Prop :=
+  v'.ws = v.ws ∧ v'.over = v.over ∧ v'.overT = v.overT ∧ v'.env = v.env ∧ v'.round = v.round ∧ v'.index = v.index
+
+variable {T Tc strict}
+
+theorem Inv.core {v v' : Voter} (hI : Inv T Tc strict v) (h : CoreEq v v') : Inv T Tc strict v' := by
+  obtain ⟨h1, h2, h3, h4, _, _⟩ := h
+  exact ⟨by rw [h1]; exact hI.sta, by rw [h1]; exact hI.vrf, by rw [h2, h3]; exact hI.th, by rw [h4]; exact hI.env⟩
+
+theorem Inv.votes {v : Voter} (hI : Inv T Tc strict v) (c : Ctx) (ch : Bool) (vt : VT) (h : Hash) :
+    countOf v.ws c ch vt h = sumVotes (votesOf v.ws c ch vt h) % U32 ∧
+    ((votesOf v.ws c ch vt h).map (·.addr)).Nodup ∧
+    (strict = true → ∀ e ∈ votesOf v.ws c ch vt h, e.vrf = true) := by
+  unfold countOf votesOf
+  cases hg : getW v.ws c with
+  | none => simp [sumVotes]
+  | some w =>
+    have hm := getW_mem hg
+    exact ⟨(hI.sta _ hm ch vt).cnt h, (hI.sta _ hm ch vt).nodup h, fun hs e he => hI.vrf hs _ hm ch vt h e he⟩
+
+variable (T Tc strict)
+
+def GoodOut (ctx : Ctx) : Out → Prop
+  | .over c vt _ _ count T' mem => c = ctx ∧ overThreshold count T' (vt != .cert) = true ∧
+      (vt ≠ .other → count = sumVotes mem % U32 ∧ (mem.map (·.addr)).Nodup ∧ (strict = true → ∀ e ∈ mem, e.vrf = true))
+  | .commit c _ cert pc _ certs => c = ctx ∧ ∃ Tp Tq, (strict = true → Tp = T ∧ Tq = Tc) ∧
+      quorum Tp true ≤ sumVotes pc % U32 ∧ (pc.map (·.addr)).Nodup ∧ (strict = true → ∀ e ∈ pc, e.vrf = true) ∧
+      (cert = true → quorum Tq false ≤ sumVotes certs % U32 ∧ (certs.map (·.addr)).Nodup ∧
+        (strict = true → ∀ e ∈ certs, e.vrf = true))
+  | .signed _ c _ _ _ => c = ctx
+  | .rice c _ _ => c = ctx
+  | _ => True
+
+def Consistent (v : Voter) : Call → Prop
+  | .judge vt count T' h _ k =>
+    (∀ ch, kindChamber? k = some ch → vt ≠ .other → count = countOf v.ws v.ctx ch vt h) ∧ (strict = true → T' = thr T Tc vt)
+  | _ => True
+
+structure Res (v : Voter) (r : Voter × List Out × Bool) : Prop where
+  inv : Inv T Tc strict r.1
+  env : r.1.env = v.env
+  round : r.1.round = v.round
+  index : r.1.index = v.index
+  good : ∀ o ∈ r.2.1, GoodOut T Tc strict v.ctx o
+
+variable {T Tc strict}
+
+theorem Res.refl {v : Voter} (hI : Inv T Tc strict v) (b : Bool) : Res T Tc strict v (v, [], b) :=
+  ⟨hI, rfl, rfl, rfl, by intro o ho; simp at ho⟩
+
+theorem Res.core {v v' : Voter} {r : Voter × List Out × Bool} (hr : Res T Tc strict v r) (hc : CoreEq r.1 v') (b : Bool) :
+    Res T Tc strict v (v', r.2.1, b) :=
+  ⟨hr.inv.core hc, by rw [hc.2.2.2.1]; exact hr.env, by rw [hc.2.2.2.2.1]; exact hr.round,
+   by rw [hc.2.2.2.2.2]; exact hr.index, hr.good⟩
+
+theorem ctx_eq {v v' : Voter} (h1 : v'.round = v.round) (h2 : v'.index = v.index) : v'.ctx = v.ctx := by
+  simp [Voter.ctx, h1, h2]
+
+theorem Res.trans {v : Voter} {r1 r2 : Voter × List Out × Bool} (h1 : Res T Tc strict v r1)
+    (h2 : Res T Tc strict r1.1 r2) (b : Bool) : Res T Tc strict v (r2.1, r1.2.1 ++ r2.2.1, b) := by
+  refine ⟨h2.inv, by rw [h2.env, h1.env], by rw [h2.round, h1.round], by rw [h2.index, h1.index], ?_⟩
+  intro o ho
+  rcases List.mem_append.mp ho with ho | ho
+  · exact h1.good o ho
+  · have := h2.good o ho
+    rwa [ctx_eq h1.round h1.index] at this
+
+theorem Res.outs {v v' : Voter} (hI : Inv T Tc strict v') (hc : v'.env = v.env ∧ v'.round = v.round ∧ v'.index = v.index)
+    (outs : List Out) (hg : ∀ o ∈ outs, GoodOut T Tc strict v.ctx o) (b : Bool) : Res T Tc strict v (v', outs, b) :=
+  ⟨hI, hc.1, hc.2.1, hc.2.2, hg⟩
+
+/-- counting a vote keeps the invariant; the returned count is the stored count -/
+theorem newVoteAt_res {v : Voter} (hI : Inv T Tc strict v) (c : Ctx) (k : VKind) (vt : VT) (a : Addr) (h : Hash)
+    (votes : Nat) (vrf : Bool) (hv : strict = true → vrf = true) :
+    Inv T Tc strict (v.newVoteAt c k vt a h votes vrf).1 ∧
+    (v.newVoteAt c k vt a h votes vrf).1.over = v.over ∧ (v.newVoteAt c k vt a h votes vrf).1.overT = v.overT ∧
+    (v.newVoteAt c k vt a h votes vrf).1.env = v.env ∧ (v.newVoteAt c k vt a h votes vrf).1.round = v.round ∧
+    (v.newVoteAt c k vt a h votes vrf).1.index = v.index ∧
+    (∀ ch, kindChamber? k = some ch → vt ≠ .other →
+      (v.newVoteAt c k vt a h votes vrf).2.2 = countOf (v.newVoteAt c k vt a h votes vrf).1.ws c ch vt h) := by
+  unfold Voter.newVoteAt
+  split
+  · rename_i ch w hk hg
+    split
+    · rename_i hvt
+      exact ⟨hI, rfl, rfl, rfl, rfl, rfl, fun _ _ hne => absurd hvt hne⟩
+    · rename_i hvt
+      have hm := getW_mem hg
+      refine ⟨⟨?_, ?_, hI.th, hI.env⟩, rfl, rfl, rfl, rfl, rfl, ?_⟩
+      · intro cw hcw ch' vt'
+        rcases mem_setW hcw with hcw | hcw
+        · exact hI.sta cw hcw ch' vt'
+        · rw [hcw, Wrapper.set_sta]
+          split
+          · exact newVote_inv (hI.sta _ hm ch vt) a h votes vrf
+          · exact hI.sta _ hm ch' vt'
+      · intro hs cw hcw ch' vt' h' e he
+        rcases mem_setW hcw with hcw | hcw
+        · exact hI.vrf hs cw hcw ch' vt' h' e he
+        · rw [hcw, Wrapper.set_sta] at he
+          split at he
+          · rcases newVote_mem he with he | ⟨he, _⟩
+            · exact hI.vrf hs _ hm ch vt h' e he
+            · rw [he]; exact hv hs
+          · exact hI.vrf hs _ hm ch' vt' h' e he
+      · intro ch' hk' _
+        rw [hk] at hk'; cases hk'
+        simp only [countOf, getW_setW hg, Wrapper.set_sta, and_self, if_true]
+        exact newVote_count _ a h votes vrf
+  · rename_i hno
+    refine ⟨hI, rfl, rfl, rfl, rfl, rfl, ?_⟩
+    intro ch hk _
+    simp only [countOf]
+    cases hg : getW v.ws c with
+    | none => rfl
+    | some w => exact absurd hg (by intro hg; exact hno ch w hk hg)
+
+theorem thr_precommit : thr T Tc .precommit = T := by simp [thr]
+theorem thr_cert : thr T Tc .cert = Tc := by simp [thr]
+
+theorem core_refl (v : Voter) : CoreEq v v := ⟨rfl, rfl, rfl, rfl, rfl, rfl⟩
+
+theorem core_ite {z : Voter} (b : Bool) {x y : Voter} (hx : CoreEq z x) (hy : CoreEq z y) :
+    CoreEq z (if b = true then x else y) := by
+  split <;> assumption
+
+theorem exec_res : ∀ (fuel : Nat) (v : Voter) (call : Call), Inv T Tc strict v → Consistent T Tc strict v call →
+    Res T Tc strict v (exec fuel v call)
+  | 0, v, call, hI, _ => by
+    refine ⟨hI, rfl, rfl, rfl, ?_⟩
+    intro o ho; simp [exec] at ho; subst ho; trivial
+  | fuel + 1, v, .commit h p, hI, _ => by
+    simp only [exec]
+    split
+    · exact Res.refl hI true
+    · split
+      · exact Res.refl hI true
+      · split
+        · exact Res.refl hI true
+        · rename_i h1 h2 h3
+          simp at h2 h3
+          refine ⟨hI.core ⟨rfl, rfl, rfl, rfl, rfl, rfl⟩, rfl, rfl, rfl, ?_⟩
+          intro o ho
+          simp only [List.mem_singleton] at ho
+          subst ho
+          have hp := hI.votes v.ctx true .precommit h
+          have hc := hI.votes v.ctx true .cert h
+          have hq : ∀ {c T' : Nat} {b : Bool}, overThreshold c T' b = true → quorum T' b ≤ c := by
+            intro c T' b hh; simpa [overThreshold] using hh
+          refine ⟨rfl, v.overT h .precommit, if v.shouldCert then v.overT h .cert else Tc, ?_, ?_, hp.2.1, hp.2.2, ?_⟩
+          · intro hs
+            refine ⟨by rw [hI.th hs h .precommit h2.1, thr_precommit], ?_⟩
+            split
+            · rename_i hsc; rw [hI.th hs h .cert (h3 hsc).1, thr_cert]
+            · rfl
+          · rw [← hp.1]; exact hq h2.2
+          · intro hsc
+            simp only [hsc, if_true]
+            exact ⟨by rw [← hc.1]; exact hq (h3 hsc).2, hc.2.1, hc.2.2⟩
+  | fuel + 1, v, .mark h p, hI, _ => by
+    have ih := exec_res fuel v (.markBody h p) hI trivial
+    simp only [exec]
+    split
+    · split
+      · exact Res.refl hI true
+      · exact ih
+    · exact ih
+  | fuel + 1, v, .markBody h p, hI, _ => by
+    have ih := exec_res fuel v (.vote .next h p) hI trivial
+    simp only [exec]
+    split
+    · exact Res.refl hI true
+    · split
+      · split
+        · exact ⟨hI.core ⟨rfl, rfl, rfl, rfl, rfl, rfl⟩, rfl, rfl, rfl, by intro o ho; simp at ho⟩
+        · exact Res.refl hI true
+      · split
+        · exact ⟨ih.inv.core ⟨rfl, rfl, rfl, rfl, rfl, rfl⟩, ih.env, ih.round, ih.index, ih.good⟩
+        · exact ⟨ih.inv, ih.env, ih.round, ih.index, ih.good⟩
+  | fuel + 1, v, .vote vt h p, hI, _ => by
+    simp only [exec]
+    split
+    · exact Res.refl hI false
+    · rename_i sv hsel
+      split
+      · exact Res.refl hI false
+      · split
+        · exact Res.refl hI false
+        · split
+          · exact Res.refl hI false
+          · have hI1 : Inv T Tc strict ({ v with db := v.db.record vt v.round v.index } : Voter) :=
+              hI.core ⟨rfl, rfl, rfl, rfl, rfl, rfl⟩
+            obtain ⟨hn1, _, _, hn4, hn5, hn6, hn7⟩ := newVoteAt_res hI1 v.ctx sv.kind vt self h sv.votes true (fun _ => rfl)
+            have hcx := ctx_eq hn5 hn6
+            have hC : Consistent T Tc strict
+                (({ v with db := v.db.record vt v.round v.index } : Voter).newVoteAt v.ctx sv.kind vt self h sv.votes true).1
+                (.judge vt (({ v with db := v.db.record vt v.round v.index } : Voter).newVoteAt v.ctx sv.kind vt self h sv.votes true).2.2
+                  sv.T h p sv.kind) := by
+              refine ⟨?_, fun hs => hI.env hs vt sv hsel⟩
+              intro ch hk hne
+              rw [hcx]
+              exact hn7 ch hk hne
+            have ih := exec_res fuel _ _ hn1 hC
+            refine ⟨ih.inv, by rw [ih.env, hn4], by rw [ih.round, hn5], by rw [ih.index, hn6], ?_⟩
+            intro o ho
+            simp only [List.mem_cons] at ho
+            rcases ho with ho | ho
+            · subst ho; exact rfl
+            · have := ih.good o ho
+              rwa [hcx] at this
+  | fuel + 1, v, .judge vt count T' h p k, hI, hC => by
+    simp only [exec]
+    split
+    · exact Res.refl hI true
+    · rename_i hg1
+      split
+      · exact ⟨hI.core ⟨rfl, rfl, rfl, rfl, rfl, rfl⟩, rfl, rfl, rfl, by intro o ho; simp at ho⟩
+      · split
+        · exact Res.refl hI true
+        · rename_i ch hk
+          have hover : overThreshold count T' (vt != .cert) = true := by
+            simp at hg1; exact hg1.1
+          have hI1 : Inv T Tc strict
+              ({ v with over := fun h' c' t' => if h' = h ∧ c' = ch ∧ t' = vt then true else v.over h' c' t'
+                        overT := fun h' t' => if h' = h ∧ ch = true ∧ t' = vt then T' else v.overT h' t' } : Voter) := by
+            refine ⟨hI.sta, hI.vrf, ?_, hI.env⟩
+            intro hs h' vt' hov
+            simp only at hov ⊢
+            by_cases hc : h' = h ∧ ch = true ∧ vt' = vt
+            · simp only [hc, and_self, if_true]
+              exact hC.2 hs
+            · have hc' : ¬ (h' = h ∧ true = ch ∧ vt' = vt) := by
+                intro hx; exact hc ⟨hx.1, hx.2.1.symm, hx.2.2⟩
+              simp only [hc', if_false] at hov
+              simp only [hc, if_false]
+              exact hI.th hs h' vt' hov
+          have hgood : GoodOut T Tc strict v.ctx (Out.over v.ctx vt ch h count T' (votesOf v.ws v.ctx ch vt h)) := by
+            refine ⟨rfl, hover, fun hne => ?_⟩
+            have := hI.votes v.ctx ch vt h
+            exact ⟨by rw [hC.1 ch hk hne]; exact this.1, this.2.1, this.2.2⟩
+          have R1 : Res T Tc strict v
+              (({ v with over := fun h' c' t' => if h' = h ∧ c' = ch ∧ t' = vt then true else v.over h' c' t'
+                         overT := fun h' t' => if h' = h ∧ ch = true ∧ t' = vt then T' else v.overT h' t' } : Voter),
+               [Out.over v.ctx vt ch h count T' (votesOf v.ws v.ctx ch vt h)], true) := by
+            refine ⟨hI1, rfl, rfl, rfl, ?_⟩
+            intro o ho; simp only [List.mem_singleton] at ho; subst ho; exact hgood
+          split
+          · exact R1
+          · split
+            · -- prevote
+              generalize ({ v with over := fun h' c' t' => if h' = h ∧ c' = ch ∧ t' = VT.prevote then true else v.over h' c' t'
+                                   overT := fun h' t' => if h' = h ∧ ch = true ∧ t' = VT.prevote then T' else v.overT h' t' } : Voter) = v1
+                at R1 hI1 ⊢
+              split
+              · exact R1
+              · have ih2 := exec_res fuel v1 (.vote .precommit h p) hI1 trivial
+                generalize exec fuel v1 (.vote .precommit h p) = r2 at ih2 ⊢
+                have R12 := R1.trans ih2 true
+                have R3 := R12.core (v' := if r2.2.2 = true then { r2.1 with precommitted := true } else r2.1)
+                  (core_ite _ ⟨rfl, rfl, rfl, rfl, rfl, rfl⟩ (core_refl _)) true
+                have ih4 := exec_res fuel _ (.mark h p) R3.inv trivial
+                exact R3.trans ih4 true
+            · -- precommit
+              generalize ({ v with over := fun h' c' t' => if h' = h ∧ c' = ch ∧ t' = VT.precommit then true else v.over h' c' t'
+                                   overT := fun h' t' => if h' = h ∧ ch = true ∧ t' = VT.precommit then T' else v.overT h' t' } : Voter) = v1
+                at R1 hI1 ⊢
+              have hcm : ∀ (r2 : Voter × List Out × Bool), Res T Tc strict v1 r2 →
+                  Res T Tc strict v ((exec fuel r2.1 (.mark h p)).1,
+                    [Out.over v.ctx .precommit ch h count T' (votesOf v.ws v.ctx ch .precommit h)] ++ r2.2.1 ++
+                      (exec fuel r2.1 (.mark h p)).2.1, true) := by
+                intro r2 ih2
+                have R12 := R1.trans ih2 true
+                exact R12.trans (exec_res fuel _ (.mark h p) R12.inv trivial) true
+              have hvc : Res T Tc strict v
+                  (if (exec fuel v1 (.vote .cert h p)).2.2 = true then { (exec fuel v1 (.vote .cert h p)).1 with certificated := true }
+                    else (exec fuel v1 (.vote .cert h p)).1,
+                   [Out.over v.ctx .precommit ch h count T' (votesOf v.ws v.ctx ch .precommit h)] ++ (exec fuel v1 (.vote .cert h p)).2.1, true) := by
+                have ih2 := exec_res fuel v1 (.vote .cert h p) hI1 trivial
+                generalize exec fuel v1 (.vote .cert h p) = r2 at ih2 ⊢
+                have R12 := R1.trans ih2 true
+                exact R12.core (v' := if r2.2.2 = true then { r2.1 with certificated := true } else r2.1)
+                  (core_ite _ ⟨rfl, rfl, rfl, rfl, rfl, rfl⟩ (core_refl _)) true
+              repeat' split
+              all_goals first
+                | exact R1
+                | exact hcm _ (exec_res fuel v1 (.commit h p) hI1 trivial)
+                | exact hvc
+                | exact (R1.trans (exec_res fuel v1 (.vote .cert h p) hI1 trivial) true)
+                | exact ⟨(R1.trans (exec_res fuel v1 (.vote .cert h p) hI1 trivial) true).inv.core ⟨rfl, rfl, rfl, rfl, rfl, rfl⟩,
+                    (R1.trans (exec_res fuel v1 (.vote .cert h p) hI1 trivial) true).env,
+                    (R1.trans (exec_res fuel v1 (.vote .cert h p) hI1 trivial) true).round,
+                    (R1.trans (exec_res fuel v1 (.vote .cert h p) hI1 trivial) true).index,
+                    (R1.trans (exec_res fuel v1 (.vote .cert h p) hI1 trivial) true).good⟩
+            · -- cert
+              generalize ({ v with over := fun h' c' t' => if h' = h ∧ c' = ch ∧ t' = VT.cert then true else v.over h' c' t'
+                                   overT := fun h' t' => if h' = h ∧ ch = true ∧ t' = VT.cert then T' else v.overT h' t' } : Voter) = v1
+                at R1 hI1 ⊢
+              have hcm : ∀ (r2 : Voter × List Out × Bool), Res T Tc strict v1 r2 →
+                  Res T Tc strict v ((exec fuel r2.1 (.mark h p)).1,
+                    [Out.over v.ctx .cert ch h count T' (votesOf v.ws v.ctx ch .cert h)] ++ r2.2.1 ++
+                      (exec fuel r2.1 (.mark h p)).2.1, true) := by
+                intro r2 ih2
+                have R12 := R1.trans ih2 true
+                exact R12.trans (exec_res fuel _ (.mark h p) R12.inv trivial) true
+              repeat' split
+              all_goals first
+                | exact R1
+                | exact hcm _ (exec_res fuel v1 (.commit h p) hI1 trivial)
+            · -- next
+              split
+              · exact R1
+              · refine ⟨hI1.core ⟨rfl, rfl, rfl, rfl, rfl, rfl⟩, rfl, rfl, rfl, ?_⟩
+                intro o ho
+                simp only [List.mem_append, List.mem_singleton] at ho
+                rcases ho with ho | ho
+                · subst ho; exact hgood
+                · subst ho; exact rfl
+            · exact R1
+end
+
 end YouVerif.C03
